@@ -11,6 +11,7 @@ mod verify;
 mod filter;
 mod cfg;
 mod filereader;
+mod upfile;
 
 fn dispatch(op: &str, arg: &Value) -> Result<Value, String> {
     match op {
@@ -20,6 +21,7 @@ fn dispatch(op: &str, arg: &Value) -> Result<Value, String> {
         "sync" => sync::op_sync(arg),
         "filter" => filter::op_filter(arg),
         "filereader" => filereader::op_filereader(arg),
+        "upfile" => upfile::op_upfile(arg),
         "cfgload" => cfg::op_cfgload(arg),
         "cfgpath" => cfg::op_cfgpath(arg),
         "verify" => verify::op_verify(arg),
